@@ -216,7 +216,17 @@ func RunCase(line string) (impl, fail, sig string, err error) {
 		}
 		impl, fail = flRead(data, pos)
 		return impl, fail, "c08-featurelist", nil
-	case "gdef":
+	case "gdef-read":
+		if len(items) != 2 {
+			return "", "", "", errors.New("gdef-read: want 1 argument")
+		}
+		data, err := vlib.AsBytes(items[1])
+		if err != nil {
+			return "", "", "", err
+		}
+		impl, fail = gdefRead(data)
+		return impl, fail, "c08-gdef", nil
+	case "gdef", "gdef-enc":
 		d, err := gdefDescOf(items)
 		if err != nil {
 			return "", "", "", err
